@@ -56,9 +56,17 @@ func (rt *vfRoundTripper) RoundTrip(req *http.Request) (*http.Response, error) {
 
 var vfDials int
 
-type vfMatcher struct{ verdict bool }
+type vfMatcher struct {
+	verdict bool
+	seen    *[]string // every string the matcher was asked about
+}
 
-func (m vfMatcher) Match(string) bool { return m.verdict }
+func (m vfMatcher) Match(s string) bool {
+	if m.seen != nil {
+		*m.seen = append(*m.seen, s)
+	}
+	return m.verdict
+}
 
 var vfMetricErrors int
 
